@@ -18,6 +18,8 @@ type In struct {
 	RTL       bool   `json:"rtl,omitempty"`        // direction: rtl on the root element
 	FS        int    `json:"fs"`                   // font size; every word is 8 glyphs, body width 8*FS
 	Items     []Item `json:"items"`
+
+	body string // generator side only: the <body> content made by buildDoc
 }
 
 // Item is one block of the flow.
@@ -277,6 +279,16 @@ func (it Item) htmlText(sb *strings.Builder, legacy func() bool) {
 
 // buildDoc renders the literal document and user sheet from the description.
 func (in *In) buildDoc(legacy func() bool) {
+	var sb strings.Builder
+	for _, it := range in.Items {
+		it.htmlText(&sb, legacy)
+	}
+	in.body = sb.String()
+	in.assemble()
+}
+
+// assemble writes the style sheets (from Rules) around the body made by buildDoc.
+func (in *In) assemble() {
 	var author, user strings.Builder
 	for _, r := range in.Rules {
 		if r.Origin == "user" {
@@ -304,9 +316,7 @@ func (in *In) buildDoc(legacy func() bool) {
 	sb.WriteString("div, p { margin: 0; padding: 0; border: 0 }\n")
 	sb.WriteString("p.ctr::before { content: counter(page) \"of\" counter(pages) }\n")
 	sb.WriteString("</style></head><body>\n")
-	for _, it := range in.Items {
-		it.htmlText(&sb, legacy)
-	}
+	sb.WriteString(in.body)
 	sb.WriteString("</body></html>\n")
 	in.HTML = sb.String()
 	in.User = user.String()
